@@ -671,6 +671,8 @@ class Interp:
         if q in ("np.linalg.qr", "np.linalg.svd", "np.linalg.eigh"):
             return AbsArr(None)
         if q == "np.arange":
+            if len(args) == 1 and is_sym(args[0]):
+                return sym.arange(args[0])
             return np.arange(*[int(a) for a in args])
         if q == "math.factorial":
             import math
